@@ -95,6 +95,7 @@ def kernel_orders(chk, it, shape, kinds):
         results.append(it.exec_fn(s2, fn, [state, Ptr(bcell), Ptr(rcell), flag]))
     base = results[0]
     covers = {}
+    jobs = []
     for oi, order in enumerate(orders):
         for k, (s1, o1) in enumerate(results[oi]):
             if isinstance(o1, Panic):
@@ -110,13 +111,13 @@ def kernel_orders(chk, it, shape, kinds):
                 name = 'create_next_state/%s/order%s/%d-%d' % (tag, ''.join(map(str, order)), ka, kb)
                 sm = B.combine(it, sa, sb)
                 oka, okb = M.is_variant(oa.v, 'Ok'), M.is_variant(ob.v, 'Ok')
-                chk.obligation('COMM-1/accept/' + name, list(sm.pc), oka == okb, inputs, replay=None, kind='COMM',
-                               bound=tag + ', arbitrary state / relevant-coin map')
+                jobs.append(dict(name='COMM-1/accept/' + name, pc=list(sm.pc), claim=(oka == okb), inputs=inputs, kind='COMM',
+                                 bound=tag + ', arbitrary state / relevant-coin map'))
                 if 'Ok' in oa.v.payloads and 'Ok' in ob.v.payloads:
                     ua, ub = oa.v.payloads['Ok'][0], ob.v.payloads['Ok'][0]
                     for label, f in B.states_equal_parts(it, sm, ua, ub):
-                        chk.obligation('COMM-1/%s/%s' % (label, name), list(sm.pc) + [oka, okb], f, inputs, replay=None,
-                                       kind='COMM', bound=tag + ', arbitrary state / relevant-coin map')
+                        jobs.append(dict(name='COMM-1/%s/%s' % (label, name), pc=list(sm.pc) + [oka, okb], claim=f,
+                                         inputs=inputs, kind='COMM', bound=tag + ', arbitrary state / relevant-coin map'))
                     covers.setdefault('both orders accepted', []).append((list(sm.pc), z3.And(oka, okb)))
                     a0 = txs[0].fields[1].fields[0]
                     txh1 = B.tx_hash_term(it, sm, txs[1])
@@ -124,6 +125,7 @@ def kernel_orders(chk, it, shape, kinds):
                         (list(sm.pc), z3.And(oka, okb, a0.fields[0].fields[0].fields[0] == txh1, a0.fields[1] == 0,
                                              z3.Bool('k_rc_has_1_0'))))
                 chk.sample({'kernel': 'create_next_state', 'batch': tag, 'order': order})
+    chk.discharge_parallel(jobs)
     for cname, alts in covers.items():
         chk.cover_any('%s/create_next_state/%s' % (cname, tag), alts)
     # ---- load_relevant_coins / load_stake_info give the same set-valued result in every order
@@ -206,6 +208,8 @@ def closure_purity(chk, it):
     bad = []
     for n in names:
         for fn in it.funcs[n]:
+            if fn.is_const or not fn.param_types:
+                continue
             mp.lower_function(fn)
             if not fn.param_types[0].startswith('&{closure') and fn.param_types[0].startswith('&mut'):
                 bad.append(n + ': takes &mut self')
